@@ -250,7 +250,8 @@ def main():
             if " failed" in tail or "error" in tail.lower() or r.returncode not in (0,):
                 rec["status"] = "killed-by-suite"
                 continue
-            env = dict(os.environ, VERIF_REPO=wt, VERIF_SEED=str(args.seed))
+            env = dict(os.environ, VERIF_REPO=wt, VERIF_SEED=str(args.seed),
+                       VERIF_SCALE=os.environ.get("VERIF_SCALE", "0.35"))
             killed = None
             for pid in ORDER:
                 r = run([os.path.join(HERE, "run_check.py"), pid, "--tier",
